@@ -697,6 +697,19 @@ def parse_equation(equation: str) -> List[Symbol]:
 
         symbols[name] = symbols.get(name, symbol).combine(symbol)
 
+    # Every (non-verbatim) statement must define exactly one endogenous
+    # variable: anything else would be dropped without a word
+    defined = [
+        s
+        for s in symbols.values()
+        if s.type == Type.ENDOGENOUS and s.equation is not None
+    ]
+    if len(defined) != 1:
+        raise ParserError(
+            f'Expected the statement to define one endogenous variable '
+            f'but found {len(defined)}: {equation}'
+        )
+
     return list(symbols.values())
 
 
